@@ -178,6 +178,10 @@ def cases(tier):
         if tier == "thorough" or desc[0] in ("K1-chain2", "K8-bus") or sum(desc[1]) % 9 == 0:
             out.append((desc, "asc", "edited"))
             out.append((desc, "asc", "edited-by-handle"))
+    for desc in design.shape_family(5 if tier == "thorough" else 4):
+        out.append((desc, "asc"))
+        out.append((desc, "asc", "edited"))
+        out.append((desc, "asc", "edited-by-handle"))
     out += [(desc, order) for desc in design.family_hier(tier, variants=("plain", "dangling-nets")) for order in core.ORDER_VARIANTS]
     return out
 
